@@ -161,6 +161,9 @@ type seqCase struct {
 	CD     bool     `json:"cd"`
 	Edns   bool     `json:"edns"`
 	Seed   int64    `json:"seed"`
+	TTL    uint32   `json:"fix_ttl,omitempty"` // every record gets this ttl (short-lived entries)
+	N      int      `json:"callers,omitempty"` // burst phase: concurrent identical queries
+	Lazy   bool     `json:"lazy,omitempty"`    // burst phase: lazy cache enabled
 }
 
 func (c seqCase) name() string {
@@ -204,6 +207,17 @@ type seqRun struct {
 	dirty     map[string]bool
 	dirtyMuts []string
 	extraW    map[string]any // added to every witness (e.g. how to replay the whole dump round)
+	// optional: the unchanged cache does not store this response shape; a miss is
+	// bookkeeping, not a lost observation (a tree that does cache it gets the full cycle).
+	optional bool
+}
+
+func newSeqRun(e *env, c seqCase) *seqRun {
+	r := &seqRun{c: c, e: e, rng: rand.New(rand.NewSource(c.Seed)), t: tmplByT[c.Type], name: c.name(), dirty: map[string]bool{}}
+	if sh, ok := parseShape(c.Shape); ok && !sh.cachedOnReferenceTree() {
+		r.optional = true
+	}
+	return r
 }
 
 func (r *seqRun) logf(f string, a ...any) { r.log = append(r.log, fmt.Sprintf(f, a...)) }
@@ -310,6 +324,13 @@ func (r *seqRun) verify(hit *dns.Msg, qid uint16, pr *pristine, rule ttlRule, wa
 	}
 	rep.SetAdd("rr_types_verified", r.c.Type)
 	rep.SetAdd("shapes_verified", r.c.Phase+"/"+r.c.Shape)
+	if len(pr.ttls) == 0 {
+		rep.Count("hits_on_recordless_entries", 1)
+		rep.SetAdd("recordless_shapes_verified", r.c.Phase+"/"+r.c.Shape)
+	}
+	if r.c.TTL != 0 || pr.parsed.Flags&0xf == dns.RcodeServerFailure || pr.parsed.Flags&0xf == dns.RcodeNameError {
+		rep.Count("hits_on_short_lived_entries", 1)
+	}
 	r.dirty = map[string]bool{}
 	r.dirtyMuts = nil
 	return true
@@ -318,6 +339,11 @@ func (r *seqRun) verify(hit *dns.Msg, qid uint16, pr *pristine, rule ttlRule, wa
 var badMisses, plainSamples, lazySamples atomic.Int64
 
 func (r *seqRun) unexpectedMiss(what string, since time.Time, lifetime time.Duration) {
+	if r.optional {
+		rep.Count("shape_probes_not_cached", 1)
+		rep.SetAdd("shapes_not_cached", r.c.Shape)
+		return
+	}
 	if lifetime > 0 && time.Since(since) > lifetime-1500*time.Millisecond {
 		rep.Count("entries_expired_before_hit", 1)
 		return
@@ -356,7 +382,7 @@ func minTTLOf(p *pristine) uint32 {
 func runPlain(e *env, c seqCase) {
 	caselog.Log(c)
 	t := tmplByT[c.Type]
-	r := &seqRun{c: c, e: e, rng: rand.New(rand.NewSource(c.Seed)), t: t, name: c.name(), dirty: map[string]bool{}}
+	r := newSeqRun(e, c)
 	muts := c.Muts
 	for len(muts) < 4 {
 		muts = append(muts, "none")
@@ -365,7 +391,7 @@ func runPlain(e *env, c seqCase) {
 	// --- store version 0
 	q0 := newQuery(r.name, t.typ, c, r.rng, 0)
 	id0 := q0.Id
-	sp := msgSpec{Name: r.name, Type: c.Type, Shape: c.Shape, Version: 0, Seed: c.Seed}
+	sp := msgSpec{Name: r.name, Type: c.Type, Shape: c.Shape, Version: 0, Seed: c.Seed, FixTTL: c.TTL}
 	v0 := buildMsg(t, sp, q0)
 	pr0 := makePristine(v0)
 	nopt := addOPTs(v0, c.Shape, r.rng)
@@ -727,7 +753,9 @@ func plainCases(rng *rand.Rand, rounds int) []seqCase {
 func lazyCases(rng *rand.Rand, perType int) []seqCase {
 	var out []seqCase
 	M := len(mutations)
-	lazyShapes := []string{"answer", "answer-opt", "cname-chain", "answer-2opt", "big"}
+	// stale hits need a NOERROR response with an answer; the shape-space members add
+	// answers without authority/additional records and with 0..2 OPT records
+	lazyShapes := []string{"answer", "answer-opt", "cname-chain", "answer-2opt", "big", "rc0:100:o0", "rc0:102:o1", "rc0:210:o2"}
 	idx := 0
 	for ti := range templates {
 		for k := 0; k < perType; k++ {
@@ -738,6 +766,46 @@ func lazyCases(rng *rand.Rand, perType int) []seqCase {
 				AD:    rng.Intn(2) == 0, CD: rng.Intn(2) == 0, Edns: rng.Intn(2) == 0,
 				Seed: rng.Int63n(1 << 40)})
 			idx++
+		}
+	}
+	return out
+}
+
+// shapeCases walks the response-shape space (see shapeSpace): every fully
+// enumerated shape meets every mutation of the catalogue (on the stored
+// object, on hits, on the re-stored object - the runPlain cycle); RR types,
+// the short fixed TTLs (5 s / 30 s entries are hit five times within their
+// lifetime) and in-continuation mutation rotate. Probe shapes get one case each.
+func shapeCases(rng *rand.Rand, rounds int) []seqCase {
+	var out []seqCase
+	M := len(mutations)
+	full, probes := shapeSpace()
+	idx := 0
+	mk := func(sh respShape, mi, round int) {
+		c := seqCase{Phase: "shape", Idx: idx, Type: templates[(idx*7+round)%len(templates)].T,
+			Shape:  sh.String(),
+			Muts:   []string{mutations[mi%M].Name, mutations[mi%M].Name, mutations[(mi+11+round)%M].Name, mutations[(mi+17+2*round)%M].Name},
+			InCont: (idx+round)%3 == 0,
+			AD:     rng.Intn(2) == 0, CD: rng.Intn(2) == 0, Edns: rng.Intn(2) == 0,
+			Seed: rng.Int63n(1 << 40)}
+		switch idx % 4 {
+		case 1:
+			c.TTL = 5
+		case 3:
+			c.TTL = 30
+		}
+		out = append(out, c)
+		idx++
+	}
+	for round := 0; round < rounds; round++ {
+		for si, sh := range full {
+			for mi := range mutations {
+				mk(sh, mi, round)
+			}
+			_ = si
+		}
+		for pi, sh := range probes {
+			mk(sh, pi+round*5, round)
 		}
 	}
 	return out
@@ -765,6 +833,8 @@ func main() {
 		"store through cache.Exec, then alternately mutate an owned message (the object given to SetResponse, the popped OPT, earlier hits, the re-stored object, the query) " +
 		"and hit again; every hit is packed and compared byte-wise with the pristine bytes taken before the store (ID = its own query's, TTLs within the store/read bracket); " +
 		"same for stale lazy-cache hits + background refresh and for entries that went through /dump and /load_dump; concurrent phase: 16 goroutines on 8 questions under the race detector. " +
+		"shape phase = the same cycle over the response-shape space rc<rcode>:<#answer><#authority><#additional>:o<#OPT> (NOERROR/SERVFAIL/NXDOMAIN x 8 section occupancies incl. zero records x 0..2 OPT, each x every mutation; every other rcode, question-less and TC responses as probes; fixed ttl 5/30 in rotation). " +
+		"burst phase = N in {2,3,5,8,16} concurrent queries for one key held at a gate in the upstream (released when all N are there, or when no further caller arrives: coalesced misses); every caller's response is compared with the pristine answer, the structural monitor is applied pairwise to all callers' responses and upstream objects, then each caller's response is mutated in turn (catalogue rotates), all other callers' responses are re-checked, and a later hit is verified and mutated; then N concurrent hits of the entry are held together inside the continuation and get the same treatment. " +
 		"non-trivial = a verified genuine cache hit that directly follows an EFFECTIVE mutation (packed form of the mutated object changed); fingerprint = phase|rr type|shape|hit kind|mutated object kind:mutation")
 	rep.Assume("miekg/dns Pack is used to serialise served messages; the comparison itself is done on bytes with the independent lib/wire parser")
 	rep.Assume("the harness only writes to messages it owns: responses it passed to SetResponse (after Exec returned, or after a hit proved the background store complete) and responses it was served")
@@ -817,6 +887,22 @@ func main() {
 	rep.Count("plain_cases", int64(len(pc)))
 	lap("plain")
 
+	// ---- phase 1b: the response-shape space (record-less / OPT-only / every rcode / short-lived entries)
+	sc := shapeCases(rng, rep.Pick(1, 4))
+	for i := range envs {
+		envs[i] = newEnv(0)
+	}
+	parallel(workers, func(w int) {
+		for i := w; i < len(sc); i += workers {
+			runPlain(envs[w], sc[i])
+		}
+	})
+	for _, e := range envs {
+		e.close()
+	}
+	rep.Count("shape_cases", int64(len(sc)))
+	lap("shape")
+
 	// ---- phase 2: lazy cache (stale hits + background refresh)
 	lc := lazyCases(rng, rep.Pick(3, 24))
 	lenvs := make([]*env, workers)
@@ -850,6 +936,15 @@ func main() {
 	}
 
 	lap("dump")
+	// ---- phase 3b: bursts of concurrent identical misses against a slow upstream
+	bc := burstCases(rng, rep.Pick(2, 8))
+	parallel(workers, func(w int) {
+		for i := w; i < len(bc); i += workers {
+			runBurst(bc[i])
+		}
+	})
+	rep.Count("burst_cases", int64(len(bc)))
+	lap("burst")
 	// ---- phase 4: concurrent
 	for _, cfg := range concConfigs(rng) {
 		runConcurrent(cfg)
@@ -873,6 +968,12 @@ func main() {
 	if rep.Get("concurrent_hits_verified") == 0 {
 		rep.Inconclusive("concurrent phase observed no hits")
 	}
+	if rep.Get("hits_on_recordless_entries") == 0 || rep.Get("hits_on_short_lived_entries") == 0 {
+		rep.Inconclusive("shape phase observed no hits on record-less / short-lived entries")
+	}
+	if rep.Get("burst_bursts_with_overlapping_callers") == 0 || rep.Get("burst_later_hits_verified") == 0 || rep.Get("burst_rounds_with_overlapping_hits") == 0 {
+		rep.Inconclusive("burst phase observed no overlapping identical queries / no later hits")
+	}
 	rep.Finish()
 }
 
@@ -890,10 +991,14 @@ func replay() {
 		os.Exit(3)
 	}
 	switch {
-	case doc.Case != nil && doc.Case.Phase == "plain":
+	case doc.Case != nil && (doc.Case.Phase == "plain" || doc.Case.Phase == "shape"):
 		e := newEnv(0)
 		runPlain(e, *doc.Case)
 		e.close()
+	case doc.Case != nil && doc.Case.Phase == "burst":
+		for i := 0; i < 5; i++ { // which caller is first is schedule dependent
+			runBurst(*doc.Case)
+		}
 	case doc.Case != nil && doc.Case.Phase == "lazy":
 		e := newEnv(3600)
 		runLazyBatch(e, []seqCase{*doc.Case})
